@@ -617,8 +617,37 @@ fn termless_strategy() -> BoxedStrategy<Case> {
         .boxed()
 }
 
+/// A record whose direct terms change from one set to another of the same size that coincides with it under the
+/// usual cheap checksums of a list of ids: sum and xor ({1,6} / {2,5} / {3,4}), h*31+id ({300,400} / {299,431}),
+/// h*33+id ({300,400} / {299,433}) and the 32-bit FNV polynomial h*0x01000193+id ({300,400} / {44,103568}).
+fn colliding_sets_strategy() -> BoxedStrategy<Case> {
+    const SETS: [(&[u32], &[u32]); 6] = [(&[1, 6], &[2, 5]), (&[2, 5], &[3, 4]), (&[1, 6], &[3, 4]), (&[300, 400], &[299, 431]), (&[300, 400], &[299, 433]), (&[300, 400], &[44, 103_568])];
+    (0usize..6, 0usize..3, any::<bool>(), any::<bool>(), prop_oneof![3 => Just(PathSel::Bin(3)), 1 => Just(PathSel::Builder), 1 => Just(PathSel::Jax)]).prop_map(|(fam, k, swap, rename, path)| {
+        let mut old = Facts { version: (2024, 5, 6), ..Default::default() };
+        old.terms.push(TermFact { id: 1, name: "All".into(), obsolete: false, replacement: None });
+        old.terms.push(TermFact { id: 118, name: "Phenotypic abnormality".into(), obsolete: false, replacement: None });
+        old.edges.push((118, 1));
+        for id in [2u32, 3, 4, 5, 6, 44, 299, 300, 400, 431, 433, 103_568] {
+            old.terms.push(TermFact { id, name: format!("t{id}"), obsolete: false, replacement: None });
+            old.edges.push((id, 118));
+        }
+        let (a, b) = if swap { (SETS[fam].1, SETS[fam].0) } else { SETS[fam] };
+        old.recs[k].push(RecFact { id: 7, name: "record".into(), terms: a.to_vec() });
+        old.recs[(k + 1) % 3].push(RecFact { id: 7, name: "bystander".into(), terms: vec![118, 300] });
+        let mut new = old.clone();
+        new.recs[k][0].terms = b.to_vec();
+        if rename {
+            new.recs[k][0].name = "record, renamed".into();
+        }
+        old.ann_calls = old.canonical_ann_calls();
+        new.ann_calls = new.canonical_ann_calls();
+        Case { old, new, edits: vec!["links-replaced-by-a-set-with-the-same-checksum".into()], path }
+    })
+    .boxed()
+}
+
 fn strategy(tier: Tier) -> BoxedStrategy<Case> {
-    prop_oneof![24 => small_strategy(tier), 2 => wide_record_strategy(), 1 => termless_strategy()].boxed()
+    prop_oneof![48 => small_strategy(tier), 4 => wide_record_strategy(), 2 => termless_strategy(), 1 => colliding_sets_strategy()].boxed()
 }
 
 fn small_strategy(tier: Tier) -> BoxedStrategy<Case> {
@@ -662,7 +691,7 @@ impl Property for C18 {
         "C18"
     }
     fn rule(&self) -> String {
-        "Generated: a base fact set (both ontologies built through own v3 / v2 / v1 bytes, the as_bytes round trip or JAX files; obsolete terms, replacements to existing and to non-existing ids, records of all kinds) and an edit script of 0-4 edits out of 15 kinds (rename term, add/remove parent link, flip obsolete, set replacement to an existing / non-existing id, clear replacement, change replacement between two ids that are not terms, add/remove term, add/remove/rename record, add/remove link); one case in thirteen has 34-72 terms and per kind a record directly on >= 31 of them, with links added / removed at the lowest id, the highest id or in between, plus a leaf term with >= 31 direct parents whose parent list is edited the same way. One case in 27 compares ontologies of which one or both have no terms at all but carry records (Builder: add_gene / add_*_disease only). Oracle: the difference computed on the two fact sets: added/removed id sets per entity kind; changed terms with exact name pair, added/removed parent sets, obsolete pair, replacement id pair; changed records with name pair, added/removed terms, n_terms; every list free of duplicates; compare(new,old) is the mirror image; compare(o,o) reports nothing and compare(o, roundtrip(o)) exactly the names the binary format cuts at 255 bytes (text path: names up to 300 bytes; one rename in three extends the old name, so that long names share a long prefix, one in three only swaps the ASCII case of its letters). evaluations = comparisons. Non-trivial = the two fact sets differ; every edit kind must occur as a single-edit script in a run; distinct by hash of the case.".into()
+        "Generated: a base fact set (both ontologies built through own v3 / v2 / v1 bytes, the as_bytes round trip or JAX files; obsolete terms, replacements to existing and to non-existing ids, records of all kinds) and an edit script of 0-4 edits out of 15 kinds (rename term, add/remove parent link, flip obsolete, set replacement to an existing / non-existing id, clear replacement, change replacement between two ids that are not terms, add/remove term, add/remove/rename record, add/remove link); one case in thirteen has 34-72 terms and per kind a record directly on >= 31 of them, with links added / removed at the lowest id, the highest id or in between, plus a leaf term with >= 31 direct parents whose parent list is edited the same way. One case in 55 replaces the direct terms of a record by a set of the same size with the same sum and xor, or the same h*31+id / h*33+id / 32-bit FNV value; one case in 27 compares ontologies of which one or both have no terms at all but carry records (Builder: add_gene / add_*_disease only). Oracle: the difference computed on the two fact sets: added/removed id sets per entity kind; changed terms with exact name pair, added/removed parent sets, obsolete pair, replacement id pair; changed records with name pair, added/removed terms, n_terms; every list free of duplicates; compare(new,old) is the mirror image; compare(o,o) reports nothing and compare(o, roundtrip(o)) exactly the names the binary format cuts at 255 bytes (text path: names up to 300 bytes; one rename in three extends the old name, so that long names share a long prefix, one in three only swaps the ASCII case of its letters). evaluations = comparisons. Non-trivial = the two fact sets differ; every edit kind must occur as a single-edit script in a run; distinct by hash of the case.".into()
     }
     fn assumptions(&self) -> Vec<String> {
         vec!["'replacement' of a term is the replacement id stored with it (replacement_id), whether or not that id is a term of the same ontology".into()]
@@ -677,7 +706,7 @@ impl Property for C18 {
         vec![
             "nontrivial", "single:rename-term", "single:add-parent", "single:remove-parent", "single:flip-obsolete", "single:set-replacement-existing", "single:set-replacement-dangling",
             "single:clear-replacement", "single:add-term", "single:remove-term", "single:add-record", "single:remove-record", "single:rename-record", "single:add-link", "single:remove-link",
-            "single:change-replacement-dangling-to-dangling", "name-longer-than-255-bytes", "bulk>65535-terms", "replacement-id-0", "record-with-more-than-30-terms-on-both-sides-changed", "term-with-more-than-30-parents-on-both-sides-changed", "ontology-without-terms",
+            "single:change-replacement-dangling-to-dangling", "name-longer-than-255-bytes", "bulk>65535-terms", "replacement-id-0", "record-with-more-than-30-terms-on-both-sides-changed", "term-with-more-than-30-parents-on-both-sides-changed", "ontology-without-terms", "edit:links-replaced-by-a-set-with-the-same-checksum",
         ]
     }
     fn run_generated(&self, tier: Tier, seed: u64, n: u64, stats: &mut Stats) -> Option<(Value, Failure)> {
